@@ -205,8 +205,13 @@ def run(ctx, R, tier):
                         c03.silent_exit(F, R, pb, be[1], 'B.C10.starve', 'silent', what='starving decoder')
         window_rule(F, R)
         # an error of Decoder::seek is an error of the stream: it is propagated like a decode error (the C18 rule)
-        from .c18 import seek_landing
+        from .c18 import seek_landing, chunk_lookup
         seek_landing(F, R)
+        # 'the decoding thread ends': the frame lookup answers silence only past the end of the audio and a cached chunk answers
+        # None for what it does not hold - otherwise the lookup loop never gets back to run() / never decodes again
+        chunk_lookup(F, R)
+        from .c09 import frame_source
+        frame_source(F, R)
         # the slice a streaming sound is given ends inside the audio as the static sound's does (past it, the decoder is asked
         # for frames that do not exist and never returns to look at its state)
         from .c09 import sib_data
